@@ -55,14 +55,14 @@ DocFail(c, I, O, pairs) ==
 \*                           with "" replaced by "." in every cell (and nothing else differs,
 \*                           and the returned mapping is the required one).
 NormEmpty(F) ==
-  [n \in DOMAIN F |-> [k \in DOMAIN F[n] |-> [a \in DOMAIN F[n][k] |->
-      IF F[n][k][a] = "" THEN "." ELSE F[n][k][a]]]]
+  ForceFn([n \in DOMAIN F |-> ForceSeq([k \in DOMAIN F[n] |-> ForceFn([a \in DOMAIN F[n][k] |->
+      IF F[n][k][a] = "" THEN "." ELSE F[n][k][a]])])])
 LibDeviationNames == {"EmptyStringWrittenAsDot"}
 LibExplainedBy(c, I, O, pairs, dev) ==
   /\ dev = "EmptyStringWrittenAsDot"
   /\ c.lib.doc.nblocks = c.in.nblocks /\ c.lib.doc.block = c.in.block
-  /\ O # Expected(I, c.op)
-  /\ O = NormEmpty(Expected(I, c.op))
+  /\ LET E == Expected(I, c.op) IN      \* (bound once: a parameter would be re-evaluated at every cell)
+     O # E /\ O = NormEmpty(E)
   /\ c.op.kind = "replace" => /\ pairs = ExpectedMapPairs(I, c.op)
                               /\ Cardinality(pairs) = Len(c.lib.mapping)
 
